@@ -624,6 +624,35 @@ Theorem reach_best k st : Reach k st -> BestInv st.
 Proof. induction 1; [apply best_init|eapply best_step; eauto]. Qed.
 
 
+(* the root is generated, and a subproblem is bounded only when a solution is known: so a search that ends without a failing node solver has
+   EXECUTED at least one subproblem (the statistics line divides the elapsed time by that number) *)
+Definition ExInv (st : state) : Prop := In root (generated st) /\ (bounded st <> [] -> best st <> None).
+Lemma ex_step b st st' : ExInv st -> Step b st st' -> ExInv st'.
+Proof.
+  intros (E1 & E2) S. destruct S; try (split; cbn; assumption).
+  - split; cbn; [exact E1|]. intros _. assumption.
+  - unfold newbest. destruct (best st) as [x0|] eqn:Eb; [destruct (bscore st <? s)|]; split; cbn; auto; try discriminate; rewrite ?Eb; auto.
+  - split; cbn; [apply in_or_app; left; exact E1|exact E2].
+Qed.
+Lemma ex_init k : ExInv (init k).
+Proof. split; cbn; [left; reflexivity|congruence]. Qed.
+Theorem reach_ex k st : Reach k st -> ExInv st.
+Proof. induction 1; [apply ex_init|eapply ex_step; eauto]. Qed.
+Theorem executed_positive k st : Reach k st -> (forall i t, T st i = Some t -> t = Done) -> (exists i, T st i = Some Done) -> (1 <= n_ex st)%nat.
+Proof.
+  intros R Hall Hex.
+  destruct (final_accounting k st R) as (_ & _ & Hperm & Hne & Hnb & _); [intros i t Hi; left; exact (Hall i t Hi)|exact Hex|].
+  assert (Hf : failed st = []).
+  { destruct (failed st) eqn:E; [reflexivity|]. assert (Hne' : failed st <> []) by (rewrite E; discriminate).
+    apply (failure_reported k st R) in Hne'. destruct Hne' as (i & Hi). specialize (Hall i _ Hi). discriminate. }
+  rewrite Hf in Hperm. cbn [app] in Hperm. destruct (reach_ex k st R) as (Hroot & Hb).
+  destruct (solved st) as [|n l] eqn:Es; [|rewrite Hne; simpl; lia]. exfalso.
+  cbn [app] in Hperm. assert (Hin : In root (bounded st)) by (eapply Permutation_in; [exact Hperm|exact Hroot]).
+  assert (Hbn : bounded st <> []) by (intros E; rewrite E in Hin; destruct Hin).
+  destruct (best st) as [x|] eqn:Eb; [|exact (Hb Hbn eq_refl)].
+  destruct (reach_best k st R) as (B1 & _). destruct (B1 x Eb) as (n & Hn & _). rewrite Es in Hn. destruct Hn.
+Qed.
+
 (* a worker only dies on a failing node solver *)
 Lemma failed_step b st st' : Forall (fun n => f n = PanicR) (failed st) -> Step b st st' -> Forall (fun n => f n = PanicR) (failed st').
 Proof. intros F S. destruct S; cbn; auto. destruct (newbest st s); cbn; auto. Qed.
